@@ -129,7 +129,7 @@ static const char *IMPLN[] = { "array", "linked_list", "dlinked_list" };
 /* one program step */
 static void step(void)
 {
-    int op = (int) vh_below(53);
+    int op = (int) vh_below(54);
     int i, j;
     switch (op) {
     case 0: case 1: { const char *w = word(); vh_op("str_new_from_ptr(%s)", vh_qs(w)); own(spif_str_new_from_ptr((spif_charptr_t) w), T_STR, 0); vh_count("create", 1); break; }
@@ -322,6 +322,13 @@ static void step(void)
                      if (kind == T_STR) { spif_str_splice(pool[i].p, 0, 0, pool[j].p); spif_str_splice(pool[i].p, 1, 0, pool[j].p); }
                      else { spif_mbuff_splice(pool[i].p, 0, 0, pool[j].p); spif_mbuff_splice(pool[i].p, 1, 0, pool[j].p); }
                      vh_count("splice_growing", 1); } } break;
+    /* ---- a socket object whose open fails at bind() (the directory of its local path does not exist): created, opened in vain, deleted */
+    case 53: { spif_url_t lu = spif_url_new_from_ptr((spif_charptr_t) "unix:/nonexistent-c06-dir/sock");
+               vh_op("socket_new_from_urls(unix:/nonexistent-c06-dir/sock, NULL) + open (bind fails) + del");
+               spif_socket_t so = spif_socket_new_from_urls(lu, (spif_url_t) NULL);
+               spif_url_del(lu);
+               if (so) { (void) spif_socket_open(so); spif_socket_del(so); }
+               vh_count("socket_open_failing_at_bind", 1); break; }
     case 38: case 39: if (npool > 0) { i = (int) vh_below((uint64_t) npool); vh_op("early delete of #%d (%s)", i, TN[pool[i].kind]); destroy(i); vh_count("early_delete", 1); } break;
     }
 }
